@@ -591,7 +591,7 @@ func builtinIntrinsics() map[string]intrinsic {
 				if w.t == nil {
 					m.runtimePanic("nil-deref", "Fprintf to nil writer")
 				}
-				wf := m.prog.LookupMethod(w.t, nil, "Write")
+				wf := m.lookupMethod(w.t, "Write")
 				if wf == nil {
 					m.unsupported("Fprintf: writer %v has no Write", w.t)
 				}
@@ -647,17 +647,7 @@ func (m *Machine) callMethod(caller *frame, recv Iface, name string, args ...Val
 	if recv.t == nil {
 		return nil, false
 	}
-	f := m.prog.LookupMethod(recv.t, nil, name)
-	if f == nil {
-		// unexported or missing
-		ms := m.prog.MethodSets.MethodSet(recv.t)
-		for i := 0; i < ms.Len(); i++ {
-			if ms.At(i).Obj().Name() == name {
-				f = m.prog.MethodValue(ms.At(i))
-				break
-			}
-		}
-	}
+	f := m.lookupMethod(recv.t, name)
 	if f == nil {
 		return nil, false
 	}
@@ -674,13 +664,13 @@ func (m *Machine) errorsIs(caller *frame, err, target Iface, depth int) bool {
 				return true
 			}
 		}
-		if f := m.prog.LookupMethod(err.t, nil, "Is"); f != nil && f.Signature.Params().Len() == 1 {
+		if f := m.lookupMethod(err.t, "Is"); f != nil && f.Signature.Params().Len() == 1 {
 			r := m.call(caller, f, []Value{err.v, target}).(*Term)
 			if m.branchT(r) {
 				return true
 			}
 		}
-		if f := m.prog.LookupMethod(err.t, nil, "Unwrap"); f != nil {
+		if f := m.lookupMethod(err.t, "Unwrap"); f != nil {
 			r := m.call(caller, f, []Value{err.v})
 			switch r := r.(type) {
 			case Iface:
@@ -722,12 +712,12 @@ func (m *Machine) errorsAs(caller *frame, err, target Iface) bool {
 			}
 			return true
 		}
-		if f := m.prog.LookupMethod(err.t, nil, "As"); f != nil {
+		if f := m.lookupMethod(err.t, "As"); f != nil {
 			if r := m.call(caller, f, []Value{err.v, target}).(*Term); m.branchT(r) {
 				return true
 			}
 		}
-		f := m.prog.LookupMethod(err.t, nil, "Unwrap")
+		f := m.lookupMethod(err.t, "Unwrap")
 		if f == nil {
 			return false
 		}
@@ -754,7 +744,7 @@ func (m *Machine) fmtArg(caller *frame, v Value, verb byte) string {
 					return r.(*Str).String()
 				}
 			}
-			if f := m.prog.LookupMethod(x.t, nil, "String"); f != nil && f.Signature.Params().Len() == 0 && f.Signature.Results().Len() == 1 && isString(f.Signature.Results().At(0).Type()) {
+			if f := m.lookupMethod(x.t, "String"); f != nil && f.Signature.Params().Len() == 0 && f.Signature.Results().Len() == 1 && isString(f.Signature.Results().At(0).Type()) {
 				if p, isPtr := x.v.(*Value); !isPtr || p != nil {
 					return m.call(caller, f, []Value{x.v}).(*Str).String()
 				}
@@ -874,3 +864,14 @@ func (m *Machine) sprint(caller *frame, args Slice, sep string) string {
 // synthMethod / synthImplements: hooks for engine-provided types (none yet).
 func (m *Machine) synthMethod(recv Iface, name string) Value      { return nil }
 func (m *Machine) synthImplements(x Iface, it *types.Interface) bool { return false }
+
+// lookupMethod finds method name in the method set of t (exported or not); nil if absent.
+func (m *Machine) lookupMethod(t types.Type, name string) *ssa.Function {
+	ms := m.prog.MethodSets.MethodSet(t)
+	for i := 0; i < ms.Len(); i++ {
+		if ms.At(i).Obj().Name() == name {
+			return m.prog.MethodValue(ms.At(i))
+		}
+	}
+	return nil
+}
